@@ -31,6 +31,14 @@ def new_prim():
     return p
 
 
+def spell_argnums(rng, nums):
+    """the same argument numbers as another kind of iterable (sequence, view, or one-shot iterator)"""
+    forms = [list, tuple, iter, lambda xs: (i for i in xs), lambda xs: map(int, xs), lambda xs: onp.array(xs).tolist()]
+    if len(set(nums)) == len(nums):
+        forms.append(lambda xs: dict.fromkeys(xs).keys())
+    return rng.choice(forms)(list(nums))
+
+
 def vjp_case(rng):
     """argument k is an array of shape (k+1,), so the space every returned cotangent lives in is observable"""
     n = rng.randint(1, 5)
@@ -59,7 +67,7 @@ def vjp_case(rng):
             positions = list(argnums_kw)
         fns = [rule(mk[1], pos) if mk[0] == "r" else None for mk, pos in zip(makers, positions)]
         if argnums_kw is not None:
-            defvjp(p, *fns, argnums=argnums_kw)
+            defvjp(p, *fns, argnums=spell_argnums(rng, argnums_kw))
         else:
             defvjp(p, *fns)
     elif api == "argnum":
@@ -171,7 +179,13 @@ def jvp_case(rng):
             else:
                 entries.append([i, ["none"]])
                 fns.append(None)
-        defjvp(p, *fns)
+        if m and rng.random() < 0.4:
+            perm = rng.sample(range(n), m)
+            for e_, pos in zip(entries, perm):
+                e_[0] = pos
+            defjvp(p, *fns, argnums=spell_argnums(rng, perm))
+        else:
+            defjvp(p, *fns)
     k = rng.randint(1, n)
     diff = sorted(rng.sample(range(n), k))
     ts = [float(rng.choice([1, 2, 3, -1])) for _ in diff]
